@@ -16,8 +16,8 @@ abnormally is split until the offending line is isolated, and a mismatch seen in
 confirmed on the line alone before it is reported).  Lines in a finding class are never batched
 with others: a fixed stratified sample of each class is run line by line under a 5 s limit, which
 prints the KNOWN-FINDING lines and notices a class that has stopped failing."""
-import json, os, re, subprocess
-from ..common import MachineryError, NCPU
+import json, os, re, subprocess, time
+from ..common import MachineryError, NCPU, REPO
 from .. import build, tlc, run
 
 CFG = {"quick": "Macro_quick", "thorough": "Macro_thorough"}
@@ -28,6 +28,7 @@ BATCH_TIMEOUT = 20
 LINE_TIMEOUT = 5
 SAMPLE_PER_CLASS = {"quick": 64, "thorough": 400}
 CONFIRM_CAP = 400
+TRACE_BATCHES = {"quick": 6, "thorough": 40}
 GCC = ["gcc", "-E", "-P", "-x", "c++", "-std=gnu++20", "-w"]
 
 # spec event (computed by MacroRef on the reference run of the input) -> finding id
@@ -180,10 +181,10 @@ class Replayer:
             f.write("\n".join(lines) + "\n")
         return p
 
-    def parse_file(self, items, timeout):
+    def parse_file(self, items, timeout, trace=None):
         p = self.write(items, "p")
         flags = self.dflags(items[0][0]) if len(items) == 1 else []
-        r = run.run_tool("parse_file", ["-E"] + flags + [os.path.basename(p)], cwd=self.work, timeout=timeout)
+        r = run.run_tool("parse_file", ["-E"] + flags + [os.path.basename(p)], cwd=self.work, timeout=timeout, trace=trace)
         self.nruns += 1
         os.unlink(p)
         if r.timed_out:
@@ -237,6 +238,180 @@ class Replayer:
         return ("ok" if got == expected(self.recs[cid]["o"][k]) else "diff"), got
 
 
+# --------------------------------------------------------------------------- trace validation
+# projection of the H-macro hook events to the vocabulary of MacroTrace
+TTOK = re.compile(r'"(?:[^"\\\n]|\\.)*"|\'(?:[^\'\\\n]|\\.)*\'|\.?\d(?:[eEpP][+-]|[A-Za-z0-9_.])*|[A-Za-z_][A-Za-z_0-9]*'
+                  r'|##|\.\.\.|[^\sA-Za-z_0-9]')
+IDENT = re.compile(r'[A-Za-z_][A-Za-z_0-9]*$')
+
+
+def tcut(text):
+    """Spellings of a text; white space inside literals is dropped (MacroTrace compares the
+    results of # modulo white space: ExtSep = "")."""
+    out = []
+    for t in TTOK.findall(text):
+        if t[0] in "\"'":
+            t = "".join(t.split())
+        out.append(t)
+    return out
+
+
+def parse_define(text):
+    m = re.match(r'([A-Za-z_][A-Za-z_0-9]*)(\()?', text)
+    if not m:
+        return None
+    name, fn, rest = m.group(1), bool(m.group(2)), text[m.end():]
+    params, va, ok = [], False, True
+    if fn:
+        close = rest.find(")")
+        if close < 0:
+            return dict(m=name, ok=False)
+        for prm in [x.strip() for x in rest[:close].split(",")] if rest[:close].strip() else []:
+            if prm == "...":
+                va = True
+            elif IDENT.match(prm) and not va:
+                params.append(prm)
+            else:
+                ok = False            # GNU named variadic, junk
+        rest = rest[close + 1:]
+    body = tcut(rest)
+    for i, t in enumerate(body):
+        if t == "#" and fn and not (i + 1 < len(body) and (body[i + 1] in params or (va and body[i + 1] == "__VA_ARGS__"))):
+            ok = False
+        if t == "#" and not fn:
+            ok = False
+        if t in ("__VA_ARGS__", "__VA_OPT__") and not va:
+            ok = False
+    if body and (body[0] == "##" or body[-1] == "##"):
+        ok = False
+    return dict(m=name, fn=fn, params=params, va=va, body=body, ok=ok)
+
+
+def project_trace(paths, out_path, trim=150):
+    """Concatenate hook traces into one MacroTrace input.  Returns the number of Expand events."""
+    events, spell = [], set()
+    n_exp = 0
+    for pth in paths:
+        events.append(dict(e="Reset"))
+        args, ign, since = [], [], 0
+        for line in open(pth, errors="replace"):
+            try:
+                ev = json.loads(line)
+            except ValueError:
+                continue
+            k = ev.get("e")
+            if k == "Define":
+                d = parse_define(ev["text"])
+                if d is None:
+                    continue
+                if not d["ok"]:
+                    d = dict(m=d["m"], ok=False, fn=False, params=[], va=False, body=[])
+                spell.update(d["body"]); spell.update(d["params"]); spell.add(d["m"])
+                events.append(dict(e="Define", **d))
+            elif k in ("Undef", "Push", "Pop"):
+                name = ev["m"].strip()
+                if IDENT.match(name):
+                    spell.add(name)
+                    events.append(dict(e=k, m=name))
+            elif k == "ExpandArg":
+                args.append(tcut(ev["text"]))
+            elif k == "ExpandIgn":
+                ign.append(ev["m"])
+            elif k == "Expand":
+                res = tcut(ev["result"])
+                for a in args:
+                    spell.update(a)
+                spell.update(res); spell.update(ign); spell.add(ev["m"])
+                events.append(dict(e="Expand", m=ev["m"], fn=bool(ev["fn"]), args=args, ign=ign, result=res, skip=""))
+                args, ign = [], []
+                n_exp += 1
+            else:
+                continue
+            since += 1
+            if since >= trim:
+                events.append(dict(e="Trim"))
+                since = 0
+    cls, esc = {"$none": "i"}, {"$none": "$none"}
+    for t in spell:
+        if t[0] in "\"'":
+            cls[t] = "s"
+            esc[t] = t.replace("\\", "\\\\").replace('"', '\\"')
+        elif t[0].isdigit() or (t[0] == "." and len(t) > 1 and t != "..."):
+            cls[t] = "n"
+        elif IDENT.match(t):
+            cls[t] = "i"
+        else:
+            cls[t] = "p"
+    with open(out_path, "w") as f:
+        f.write(json.dumps(dict(e="Lex", cls=cls, esc=esc)) + "\n")
+        for ev in events:
+            f.write(json.dumps(ev) + "\n")
+    return n_exp
+
+
+def validate_traces(ctx, groups, what):
+    """groups: list of lists of raw hook trace files.  Each group is one TLC run."""
+    def one(ig):
+        i, paths = ig
+        cat = os.path.join(ctx.tmp, "mtrace-%s-%d.ndjson" % (what, i))
+        n = project_trace(paths, cat)
+        status, r = tlc.validate_trace("MacroTrace", cat, env={"JAVA_TOOL_OPTIONS": "-Xss256m"})
+        return cat, n, status, r
+    total = dict(events=0, compared=0, skipped=0, runs=0)
+    for cat, n, status, r in run.pmap(one, list(enumerate(g for g in groups if g))):
+        ctx.cov["states"] += r.generated
+        ctx.cov["transitions"] += r.generated
+        total["runs"] += 1
+        total["events"] += n
+        if status != "accepted":
+            status, r = tlc.validate_trace("MacroTrace", cat, env={"JAVA_TOOL_OPTIONS": "-Xss256m"})   # repeat once
+        m = re.findall(r'"MacroTrace compared", (\d+), "skipped", (\d+)', r.out)
+        if m:
+            total["compared"] += int(m[-1][0])
+            total["skipped"] += int(m[-1][1])
+        if status != "accepted":
+            lines = open(cat).read().split("\n")
+            at = getattr(r, "stuck_at", None) or 1
+            os.makedirs(ctx.replay_dir, exist_ok=True)
+            keep = os.path.join(ctx.replay_dir, os.path.basename(cat))
+            with open(keep, "w") as f:
+                f.write("\n".join(lines))
+            ctx.violation("%s trace %s by MacroTrace (%s) at event %d: %s" % (
+                what, status, r.violated or "the recorded replacement step is not the reference's", at,
+                lines[at - 1][:400] if at <= len(lines) else ""),
+                dict(trace=keep, event=lines[at - 1] if at <= len(lines) else None, tlc_tail=r.out[-2500:],
+                     stat_key="trace:" + what))
+    return total
+
+
+def hooks_present():
+    src = os.path.join(REPO, "src", "cppparser", "cppPreprocessor.cxx")
+    try:
+        return '\\"e\\":\\"Expand\\"' in open(src, errors="replace").read()
+    except OSError:
+        return False
+
+
+def corpus_traces(ctx):
+    """The shipped preprocessor tests and the stub headers, parsed once with the hooks on."""
+    items = []
+    tdir = os.path.join(REPO, "tests", "cppparser")
+    for f in sorted(os.listdir(tdir)):
+        if f.endswith((".c", ".h", ".cxx")):
+            items.append((os.path.join(tdir, f), ["-T"] if f.endswith(".c") else []))
+    pinc = os.path.join(REPO, "parser-inc")
+    for root, _, fs in sorted(os.walk(pinc)):
+        for f in sorted(fs):
+            items.append((os.path.join(root, f), []))
+
+    def one(it):
+        path, extra = it
+        tr = os.path.join(ctx.tmp, "corpus-%s.trace" % abs(hash(path)))
+        run.run_tool("parse_file", extra + ["-S", pinc, path], cwd=ctx.tmp, trace=tr, timeout=120)
+        return tr if os.path.exists(tr) else None
+    return [t for t in run.pmap(one, items) if t]
+
+
 def describe(rec, k):
     d0 = rec.get("d0") or {}
     pre = [dflag(n, d0[n]) for n in sorted(d0)]
@@ -261,6 +436,13 @@ def canonical(recs):
 def run_check(ctx):
     build.ensure("hooked")
     tier = ctx.tier
+    t0 = time.time()
+    timing = {}
+
+    def lap(name):
+        nonlocal t0
+        timing[name] = round(time.time() - t0, 1)
+        t0 = time.time()
     dump = os.path.join(ctx.tmp, "dump.ndjson")
     res = tlc.run("MacroMC", CFG[tier], env={"VERIF_DUMP": dump, "JAVA_TOOL_OPTIONS": "-Xss256m"}, timeout=1500 if tier == "quick" else 3000)
     ctx.add_tlc(res)
@@ -271,6 +453,7 @@ def run_check(ctx):
     if not recs:
         raise MachineryError("no programs dumped")
     rp = Replayer(ctx, recs)
+    lap("tlc+load")
 
     # ---- the lines and their input classes
     domain, by_class, n_out = [], {}, {}
@@ -312,6 +495,7 @@ def run_check(ctx):
         raise MachineryError("spec != gcc -E on %d of %d lines, e.g. %s: spec %s gcc %s (%s)" % (
             len(bad), n_lines, describe(recs[cid], k), e, g, path))
 
+    lap("gcc")
     # ---- replay of the claimed domain through parse_file -E
     dom_of = {}
     for cid, k in domain:
@@ -347,6 +531,7 @@ def run_check(ctx):
             dict(program=render_case(cid, recs[cid], {k}), dflags=rp.dflags(cid), expected=expected(recs[cid]["o"][k]),
                  observed=got, status=st, family=recs[cid]["f"], stat_key=recs[cid]["f"] + ":" + st), classes=[])
 
+    lap("replay")
     # ---- finding classes: a fixed stratified sample, one line per process
     per = SAMPLE_PER_CLASS[tier]
     sample = {}
@@ -377,24 +562,49 @@ def run_check(ctx):
         if s["sampled"] and not s["disagree"]:
             print("NOTE C08: no sampled line of finding class %s disagrees any more (%d sampled) -- fixed?" % (c, s["sampled"]))
 
+    lap("class samples")
+
+    # ---- trace validation (code -> spec): H-macro events of some replay batches and of the corpus
+    if hooks_present():
+        nb = TRACE_BATCHES[tier]
+        shared_jobs = [j for j in jobs if len(j) > 1]
+        picked = shared_jobs[::max(1, len(shared_jobs) // nb)][:nb]
+
+        def traced(ij):
+            i, items = ij
+            tr = os.path.join(ctx.tmp, "batch%03d.trace" % i)
+            rp.parse_file(items, BATCH_TIMEOUT * 3, trace=tr)
+            return tr if os.path.exists(tr) else None
+        btr = [t for t in run.pmap(traced, list(enumerate(picked))) if t]
+        tv_b = validate_traces(ctx, [[t] for t in btr], "replay")
+        ctr = corpus_traces(ctx)
+        tv_c = validate_traces(ctx, [ctr[i::4] for i in range(4)], "corpus")
+        ctx.notes["trace_validation"] = dict(replay_batches=len(btr), replay=tv_b, corpus_files=len(ctr), corpus=tv_c)
+        ctx.cov["traces_validated_against_impl"] += len(btr) + len(ctr)
+        if tv_b["compared"] == 0:
+            raise MachineryError("trace validation compared no replacement step (hooks silent?)")
+    else:
+        ctx.notes["trace_validation"] = "H-macro hooks (patches/c08-hooks.diff) are not in the tree under test: skipped"
+    lap("trace validation")
+    ctx.notes["timing_s"] = timing
     # ---- coverage
     n_dom = len(domain)
     ctx.cov["exhaustive"] = True
     ctx.cov["evaluations"] += n_lines + n_dom + len(keys)
-    nontrivial = set()
+    nontrivial = set()      # a case = the directives before the line (and -D) + the line itself
     for cid, keep in lines_of.items():
         rec = recs[cid]
         for k in keep:
             if rec["o"][k]["t"] != rec["p"][k]["toks"]:
-                nontrivial.add((cid, k))
+                nontrivial.add(hash(describe(rec, k)))
     ctx.cov["distinct_nontrivial"] = len(nontrivial)
     ctx.cov["traces_validated_against_impl"] += n_dom + len(keys)
     ctx.cov["rule"] = ("TLC enumerates every program of the families in the cfg (definitions from item alphabets, "
                        "#undef/redefinition/push/pop sequences, -D initial tables) with a fixed list of call-site "
                        "lines per family; a case = (program, Text line).  Every case is checked spec = gcc -E; every "
-                       "case of the claimed domain is replayed through parse_file -E; distinct = distinct "
-                       "(program, line) pairs (the enumeration has no duplicates), non-trivial = the reference "
-                       "output differs from the line's own tokens (at least one replacement happened)")
+                       "case of the claimed domain is replayed through parse_file -E; distinct = distinct text of "
+                       "(-D table, directives before the line, line), non-trivial = the reference output differs "
+                       "from the line's own tokens (at least one replacement happened)")
     ctx.notes["families"] = fams
     ctx.notes["programs"] = len(recs)
     ctx.notes["lines_total"] = n_lines
